@@ -152,6 +152,9 @@ class ContractMixin:
                 dv = self.spec_eval(entry[:-2] if entry.endswith("[]") else entry, env, pre)
                 if dv.kind.target.k is not None:
                     st.assume(self.dict_wf(st, dv))
+        for pn in c.consumes:
+            if pn in env and is_list(env[pn].kind):
+                self.mark_consumed(st, env[pn])
         if c.allocates:
             t0 = st.top
             t1 = fresh("top", I)
@@ -172,6 +175,9 @@ class ContractMixin:
             st.assume(self.ref_wf(st, res))
             if c.fresh_result:
                 st.assume(res.term >= pre.top)
+                if is_list(rk) and rk.target.oneshot_possible:
+                    # a freshly returned iterator / generator has not been iterated yet
+                    st.assume(z3.Not(self.ghost_flag(st, res.term, "consumed")))
         env2 = dict(env)
         env2["result"] = res
         for wname, (_gv, wkind) in c.witnesses.items():
